@@ -12,7 +12,7 @@ RULE = (
     "screens of arity 1..3 with 0..14 rows drawn from small pools of unicode names (incl. '', the control name in any "
     "column, a sample named like the control) and doses (0, -0.0, +-5e-324, negative, 1e300, repeats); half the cases "
     "are encoded with the mappings batchie produced for a strict superset; negative cases corrupt such a mapping "
-    "(drop a needed row, gap, shift, float ids) and must be rejected. Non-trivial = both control kinds (by name and by "
+    "(drop a needed row, gap, shift, float ids) and must be rejected; plain screens additionally go through up to three in-place plate merges (handles taken once). Non-trivial = both control kinds (by name and by "
     "dose) occur in one column, or arity != 2, or a strict-superset mapping is supplied, or a negative case. distinct = distinct case JSON."
 )
 ASSUMPTIONS = [
@@ -32,7 +32,7 @@ def budgets(tier):
 def _case(draw):
     sc = draw(S.screen_case(min_rows=0, max_rows=14))
     mode = draw(st.sampled_from(["plain", "plain", "superset", "superset", "neg"]))
-    case = {"screen": sc, "mode": mode}
+    case = {"screen": sc, "mode": mode, "merges": draw(st.lists(st.tuples(st.integers(0, 9), st.integers(0, 9)), max_size=3))}
     if mode != "plain":
         # extra rows from (mostly) the same pools: re-draw a screen with the same control/arity and reuse its rows
         extra = draw(S.screen_case(arity=sc["arity"], control=sc["control"], min_rows=0, max_rows=8))
@@ -149,7 +149,32 @@ def check_case(case):
         both = _check_screen(s, sc)
         if both:
             labels.append("both-control-kinds-in-a-column")
-        return {"nontrivial": both or sc["arity"] != 2, "labels": labels}
+        # plates merged in place (handles taken once, so later merges use stale handles): the plate ids must remain the
+        # dense 0..n-1 encoding of the CURRENT plate names (the plate mapping, which merge does not maintain, is not asserted)
+        handles = list(s.plates)
+        merged = 0
+        for a_, b_ in case.get("merges", []):
+            if len(handles) < 2:
+                break
+            pa, pb = handles[a_ % len(handles)], handles[b_ % len(handles)]
+            if pa is pb:
+                continue
+            pa.merge(pb)
+            merged += 1
+            names_now = [str(x) for x in s.plate_names]
+            ids_now = [int(x) for x in s.plate_ids]
+            f = {}
+            for nm, i in zip(names_now, ids_now):
+                require(f.setdefault(nm, i) == i, "plate.after_merge.functional", lambda: "after merging, plate %r has ids %r and %r" % (nm, f[nm], i))
+            require(len(set(f.values())) == len(f), "plate.after_merge.injective", lambda: "after merging, two plate names share an id: %r" % f)
+            require(sorted(f.values()) == list(range(len(f))), "plate.after_merge.dense", lambda: "after merging, plate ids are %r for %d plate names" % (sorted(f.values()), len(f)))
+            require(int(s.n_plates) == len(f), "plate.after_merge.n_plates", lambda: "n_plates=%r for %d plate names" % (s.n_plates, len(f)))
+            for nm, i in f.items():
+                sel = np.asarray(s.get_plate(i).selection_vector)
+                require([names_now[r] for r in np.where(sel)[0]] == [nm] * int(sel.sum()) and int(sel.sum()) == names_now.count(nm), "plate.after_merge.get_plate", lambda: "get_plate(%d) does not select exactly the rows of plate %r" % (i, nm))
+        if merged:
+            labels.append("plate-merges")
+        return {"nontrivial": both or sc["arity"] != 2 or merged > 0, "labels": labels}
 
     sup_rows = sc["rows"] + case["extra"]
     sup = S.build_screen(dict(sc, observed=[]), rows=sup_rows)
